@@ -31,7 +31,8 @@ def main(tier):
     chk = vcheck.Check("C14", "model_checking", tier)
     seed = vcheck.seed()
     common.model_step(chk, "C14", tier)
-    sp = common.transfer_specs(tier, seed + 14) + common.dupspell_specs(tier, seed + 14) + race_specs(tier, seed + 14)
+    sp = common.transfer_specs(tier, seed + 14) + common.dupspell_specs(tier, seed + 14) + common.retype_specs(tier, seed + 14) + \
+        race_specs(tier, seed + 14)
     results = common.run_specs(sp, ["C14", "TSRV", "TCLI"])
     common.judge(chk, results, "TraceMonAnswers", "TraceMonAnswers.cfg", "answers", key="C14")
     common.bind_tunnel(chk, results)
